@@ -357,6 +357,60 @@ def first_report_composed(ck, prog, seed):
     ck.cov['first_report_composed'] = {'paths': len(outs), 'counterexamples_replayed': stats[0], 'confirmed': stats[1]}
 
 
+def message_loop_part(ck, prog, seed):
+    """C08 through the writer thread's message loop: every outcome message the loop takes from its mailbox is handed to the updater -
+    one call per message, in order, with that message's own data (nothing dropped, merged or reordered), whatever else is queued."""
+    from .thread_exit import Models, loop_summary, ctx_value
+    M = Models(prog)
+    ex, fn, S = loop_summary(M, 'process_messages', [ctx_value(M, 'ShmWriter'), Opaque('updater')])
+    pr = Prover(seed); pr.add(ex.side)
+    K_update = {M.msg['ClockErrorBoundData']: 'process_clock_update'}
+    K_missing = {M.msg[k]: 'process_missing_clock_update' for k in ('ChronyNotRespondingGracePeriod', 'PhcErrorBoundRetrievalFailedGracePeriod', 'ChronyNotResponding', 'PhcErrorBoundRetrievalFailed') if k in M.msg}
+    handled = dict(K_update); handled.update(K_missing)
+    failed = []
+    n = 0
+    for g in S.iteration:
+        rc = [e for e in g.events if e.kind in ('recv', 'recv_timeout', 'try_recv')]
+        up = [e for e in g.events if e.kind == 'updater']
+        for a in g.alts:
+            if a.kind not in ('stop', 'return') or not rc:
+                continue
+            n += 1
+            cnt = z3.Sum([z3.If(z3.And(e.ret[0], z3.Or([e.ret[1] == k for k in handled])), 1, 0) for e in rc])
+            label = 'message loop path %d [%s]' % (n, ' '.join(e.kind for e in g.events))
+            res = pr.prove(label + ': one updater call per outcome message received (%d receive(s), %d call(s))' % (len(rc), len(up)), a.guard, cnt == len(up), need_reach=False)
+            if isinstance(res, tuple):
+                failed.append(label)
+            # the call matches the message kind (first received handled message -> first call, ...)
+            if len(rc) == 1 and len(up) == 1:
+                ok_, kind_, _e = rc[0].ret
+                want = z3.Or([z3.And(kind_ == k, z3.BoolVal(up[0].args[0] == nm)) for k, nm in handled.items()])
+                res = pr.prove(label + ': the updater entry point is the one for the message kind', z3.And(a.guard, ok_, z3.Or([kind_ == k for k in handled])), want, need_reach=False)
+                if isinstance(res, tuple):
+                    failed.append(label)
+    if getattr(S, 'carried_struct', None):
+        failed.append('the loop keeps structured state from one turn to the next (%s)' % sorted(S.carried_struct))
+    ck.cov['message_loop'] = {'paths': n, 'suspicious': failed[:4]}
+    # native: the same outcome sequence through the real loop and through direct updater calls must publish the same records
+    if failed:
+        rp = common.Replay('debug')
+        R = lambda leap, disp, a_s: 'R,%s,%s,%s,%s,%d,%d,%d,%d,%d' % (f64_hex(0.0), f64_hex(0.0), f64_hex(disp), f64_hex(16.0), leap, 10 ** 6, 0, a_s, 5)
+        seqs = [[R(0, 0.001, 10), R(3, 0.002, 11)], [R(0, 0.001, 10), R(0, 0.002, 11), R(3, 0.003, 12)], [R(0, 0.001, 10), 'G', R(3, 0.002, 12)], [R(3, 0.001, 10), R(0, 0.002, 11)],
+                [R(0, 0.001, 10), 'N', R(0, 0.002, 12), R(7, 0.003, 13)], ['G', R(0, 0.001, 10), R(0, 0.002, 11)]]
+        hit = False
+        for sq in seqs:
+            a_ = rp.ask('history 1000 ' + ' '.join(sq)); b_ = rp.ask('msgloop 1000 ' + ' '.join(sq))
+            if a_.startswith('ok') and b_ != a_:
+                ck.violation('publication-count', 'the outcome sequence %s queued in the writer thread\'s mailbox: the real message loop published %s ; one record per outcome, each from its own message, is %s'
+                             % (' '.join(x[0] + (x.split(',')[5] if x[0] == 'R' else '') for x in sq), b_[3:200], a_[3:200]), {'cmd': 'msgloop 1000 ' + ' '.join(sq), 'native': b_, 'history': a_})
+                hit = True; break
+        rp.close()
+        if not hit:
+            ck.inconclusive.append('the message loop is not of the one-message-one-call shape (%s) and the native sequences agree with direct updater calls' % failed[0][:120])
+        pr.handled = {n_ for n_, m_ in pr.failed}
+    ck.absorb(pr, 'loop: ')
+
+
 def run_check(prop, tier, seed):
     ck = Check(prop, tier, seed)
     t0 = time.time()
@@ -474,6 +528,21 @@ def run_check(prop, tier, seed):
     # overflow / panic obligations of the updater code in the stated domain
     ck.absorb(pr)
     rp.close(); rp2.close()
+    if prop == 'C08':
+        try:
+            message_loop_part(ck, prog, seed)
+        except EngineError as e:
+            # the loop is outside the encodable fragment: the native comparison still runs
+            ck.inconclusive.append('message loop of the writer thread: %s' % e)
+            rp_ = common.Replay('debug')
+            R_ = lambda leap, disp, a_s: 'R,%s,%s,%s,%s,%d,%d,%d,%d,%d' % (f64_hex(0.0), f64_hex(0.0), f64_hex(disp), f64_hex(16.0), leap, 10 ** 6, 0, a_s, 5)
+            for sq in ([R_(0, 0.001, 10), R_(3, 0.002, 11)], [R_(0, 0.001, 10), R_(0, 0.002, 11), R_(3, 0.003, 12)], [R_(0, 0.001, 10), 'G', R_(3, 0.002, 12)]):
+                a_ = rp_.ask('history 1000 ' + ' '.join(sq)); b_ = rp_.ask('msgloop 1000 ' + ' '.join(sq))
+                if a_.startswith('ok') and b_ != a_:
+                    ck.violation('publication-count', 'outcomes queued in the writer thread\'s mailbox: the real message loop published %s ; one record per outcome is %s' % (b_[3:200], a_[3:200]),
+                                 {'cmd': 'msgloop 1000 ' + ' '.join(sq), 'native': b_, 'history': a_})
+                    break
+            rp_.close()
     if prop == 'C09':
         try:
             first_report_composed(ck, prog, seed)
